@@ -37,7 +37,7 @@ def budget(tier):
 
 @st.composite
 def strategy_(draw, tier):
-    g, recs = draw(conv.graph_and_records(canonical=False, max_records=6))
+    g, recs = draw(conv.graph_and_records(canonical=False, max_records=6, tier=tier, real=True, real_with_seq=True))
     if len(recs) >= 2 and draw(st.booleans()):
         # a later record over (part of) the walk of an earlier one: state carried from record to record shows here
         i = draw(st.integers(0, len(recs) - 2))
@@ -51,6 +51,7 @@ def strategy_(draw, tier):
     else:
         lines = [conv.stable_line(g["nodes"], r) for r in recs]
     return {"gfa": gen_graph.gfa_text(g, with_seq=True, order_seed=draw(st.integers(0, 99))),
+            **({"real_window": g["real_window"]} if "real_window" in g else {}),
             "gaf": lines, "dir": direction, "via": draw(st.sampled_from(["api", "api", "cli", "cli_stdout"]))}
 
 
@@ -103,4 +104,6 @@ def run_case(case):
         if "multi_node" in feats and feats & {"merged_interval", "strand_flip", "hap_separated_segments",
                                              "ref_run>=3", "revisit", "mixed_orientation"}:
             nontrivial = True
+    if "real_window" in case:
+        classes.add("real_graph_window")
     return core.Result(nontrivial, sorted(classes))
